@@ -352,6 +352,11 @@ def oracle_before(mab, o, inv, case):
     if o[0] in ("pred", "pexp") and o[1] is not None and mab._is_initial_fit:
         cx = np.asarray(o[1], dtype=float)
         orc["sizes"] = [len(cx)]
+        if case.get("n_jobs", 1) != 1 and hasattr(imp, "_partition_contexts"):
+            try:
+                orc["sizes"] = list(imp._partition_contexts(len(cx))[1])
+            except Exception:
+                pass
         try:
             if mod == "_KNearest":
                 from scipy.spatial.distance import cdist
